@@ -46,6 +46,15 @@ reg("C08", "reference-model monitor: float64 formulas of the published objective
     "Trusts policy.evaluate_action outputs as inputs of the formulas, NumPy float64, optax as reference optimiser. Constant advantages under "
     "normalisation only where the float32 mean is exact.")
 
+reg("C07", "reference-model monitor: float64 TD-target formulas vs real DQN.dqn_loss/dqn_loss_grad/dqn_train; recording wrapper on SAC.q_loss_grad observes per-sample SAC targets during real sac_train",
+    "Held on every batch explored: DQN loss equals the Double-DQN formula with terminated = done and not timeout for all four flag combinations, "
+    "gamma grid and distinct online/target parameters; the gradient handed to the optimiser is that of a regression on constant targets; SAC's "
+    "per-sample targets (observed at the q_loss_grad call boundary of the real sac_train) equal r + gamma*(1-terminated)*(min target critics at a "
+    "fresh next action - alpha*logp), the reported q_loss is the twin half-MSE against them, the critic step is a regression on constant targets "
+    "and the actor step leaves the critics bit-identical. Exploration over sampled batches/parameters.",
+    "Trusts the real network modules' forward outputs as inputs of the formulas; 'fresh next action' decided with a deterministic stub policy "
+    "plus key sensitivity of the real policy; d loss/d target-parameters is deliberately not asserted (the loss value does depend on them).")
+
 
 def main():
     props = [json.loads(l) for l in (ROOT / "properties.jsonl").read_text().splitlines() if l.strip()]
